@@ -6,7 +6,7 @@
 (* of every node in pre-order, same separators, same keys.  A difference    *)
 (* means the transcription and the code took different branches (DRIFT      *)
 (* unless the property-level Trace_BTreeShape also rejects).                *)
-(* Events: reset {ls, is, multi}, op {op: I|H|U|O|E|X|C|R, k, pos, ins, n, es},    *)
+(* Events: reset {ls, is, multi}, op {op: I|H|U|O|E|X|C|R|B, k, pos, ins, n, es},    *)
 (* shape {nodes: [[level, use, isroot]..], seps: [[sep, maxbelow, minright]]*)
 (* , keys}; alloc / free / end are skipped.                                 *)
 (***************************************************************************)
@@ -51,6 +51,7 @@ Step ==
                [] Ev.op = "E" -> LET r == EraseAll(t, Ev.k, 0) IN t' = r.tr /\ Ev.n = r.n
                [] Ev.op = "X" -> LET r == DoEraseIter(t, Ev.pos - 1) IN t' = r.tr /\ r.found
                [] Ev.op = "C" -> t' = EmptyTree
+               [] Ev.op = "B" -> t = EmptyTree /\ t' = DoBulkLoad([i \in 1 .. Len(Ev.es) |-> Ev.es[i][1]])
                [] OTHER -> FALSE)
       [] Ev.e = "shape" /\ Ev.c = 1 -> SameShape(t) /\ t' = t
       [] Ev.e \in {"alloc", "free", "end"} -> t' = t
